@@ -199,6 +199,10 @@ def check(ctx, rep):
                    'spawns or wakes from another thread would deadlock / serialise')
         gets = [bb for bb, t in f.calls('slab::Slab::get_mut')]
         takes = [bb for bb, t in f.calls('core::option::Option::take')]
+        # `tasks.get_mut(slot).map(Option::take)`: take handed over as a function item
+        takes += [bb for bb, t in f.calls('core::option::Option::map', 'core::option::Option::and_then') if len(t.get('args') or []) > 1 and
+                  t['args'][1].get('o') == 'const' and norm(t['args'][1].get('fn') or '') == 'core::option::Option::take']
+        takes.sort()
         first = [r for r in regions if gets and gets[0] in r[3]]
         rep.expect('R08.a', bool(first) and bool(takes) and takes[0] in first[0][3] and f.dominates(takes[0], polls[0]) if polls else False,
                    'run_task|take-under-lookup-lock', 'the future is taken out of its slot inside the region that looked the slot up',
